@@ -41,7 +41,10 @@ RULE = ("each run draws a pipeline (Sequence or Source form, 1-2 Cache elements,
         " the quantifier: explored, not judged)."
         " Also: the Source obtained from alter_sequence is kept and called again later, values of"
         " many builtin types (sets, ranges, complex numbers, byte arrays), cache names so long"
-        " that the temporary name cannot be created (ENAMETOOLONG).")
+        " that the temporary name cannot be created (ENAMETOOLONG)."
+        " Two-object histories may put each object into a simulated process of its own (own pid,"
+        " own copy of the module-level counters): a dump suspended in one process while the other"
+        " one runs, completes, and the first is then closed or resumed.")
 REAL = ["lena.flow.Cache", "lena.core.Sequence", "lena.core.Source", "lena.core.SourceEl",
         "lena.core.Run", "lena.core.alter_sequence", "lena.meta.SetContext", "pickle"]
 STUB = ["SimFS/SimOS (disk, os, open)", "SimSource (input flow)", "ProbeCall/ProbeRun/ProbeFC "
@@ -59,7 +62,8 @@ ASSUMPTIONS = [
 FAULT_KINDS = ["write-error-ENAMETOOLONG", "write-error-ENOSPC-at-close", "read-error-EIO", "consumer-stop-close", "consumer-stop-drop", "consumer-stop-hold", "raise-downstream",
                "raise-upstream-source", "raise-upstream-element", "drop_cache",
                "recompute", "process-crash"]
-EXPECTED_PROBES = ["values-of-many-builtin-types", "kept-hoisted-source-called-again", "hoisted-source-fails-loudly-without-its-cache", "held-run-finished-after-later-runs", "values-hold-one-object-twice", "write-error-surfaced-loudly", "held-generator-released-before-a-later-run", "other-object-ran-in-between", "downstream-updates-in-place", "source-reuses-one-context-object", "same-object-reused", "split-form-replay", "read-error-surfaced-loudly", "replay-run", "replay-after-interrupted-run", "stop-at-exact-length",
+EXPECTED_PROBES = ["process-switch", "run-while-another-process-is-suspended-in-a-dump",
+                   "held-run-of-the-other-process-released", "values-of-many-builtin-types", "kept-hoisted-source-called-again", "hoisted-source-fails-loudly-without-its-cache", "held-run-finished-after-later-runs", "values-hold-one-object-twice", "write-error-surfaced-loudly", "held-generator-released-before-a-later-run", "other-object-ran-in-between", "downstream-updates-in-place", "source-reuses-one-context-object", "same-object-reused", "split-form-replay", "read-error-surfaced-loudly", "replay-run", "replay-after-interrupted-run", "stop-at-exact-length",
                    "two-caches-inner-replay", "hoisted-to-source", "empty-flow-cached",
                    "interrupted-recompute-over-existing-cache", "accumulator-upstream-of-replay"]
 
@@ -133,6 +137,36 @@ def install(fs):
             setattr(cache_mod, name, itertools.count())
 
 
+class Procs(object):
+    """Simulated process table.  Every pipeline object of a two-object history may live in a
+    process of its own: its own process id and its own copy of the module globals of
+    lena.flow.cache that are counters (what a forked or newly started interpreter has).  The
+    simulator decides which process runs; it switches before any code of a pipeline object is
+    entered (start, next, close, drop_cache).  With one process this is a no-op."""
+
+    def __init__(self, enabled):
+        self.enabled = enabled
+        self.cur = 0
+        self.saved = {}
+        self.switches = 0
+
+    def switch(self, obj):
+        if not self.enabled or obj == self.cur:
+            return False
+        mine = {}
+        for name, val in list(vars(cache_mod).items()):
+            if isinstance(val, itertools.count):
+                mine[name] = val
+        self.saved[self.cur] = mine
+        theirs = self.saved.get(obj)
+        for name in mine:
+            setattr(cache_mod, name, theirs[name] if theirs and name in theirs else itertools.count())
+        self.cur = obj
+        cache_mod.os.pid = 4242 + 1000 * obj
+        self.switches += 1
+        return True
+
+
 class Op(object):
     pass
 
@@ -173,6 +207,8 @@ def gen_scenario(tape):
     sc.exotic = (not getattr(sc, "shared_ctx", False)) and tape.chance(1, 4, "values-of-many-builtin-types")
     # a second pipeline object on the same cache files (another process, another notebook cell)
     sc.two = sc.reuse and sc.form != "split" and tape.chance(1, 2, "two-objects")
+    # ... each of them in an operating-system process of its own (own pid, own module globals)
+    sc.procs = sc.two and tape.chance(1, 2, "two-processes")
     nops = 1 + tape.draw(5, "nops")
     sc.ops = []
     flags_of = {0: [False] * sc.ncaches, 1: [False] * sc.ncaches}
@@ -479,6 +515,9 @@ def run(tape):
                              sc.with_context, sc.protocol))
     allowed = [[None] for _ in range(sc.ncaches)]
     shared = {}
+    procs = shared["procs"] = Procs(bool(getattr(sc, "procs", False)))
+    if procs.enabled:
+        res.say("the two pipeline objects live in two processes (own pid, own module globals)")
     if sc.reuse:
         res.say("pipeline objects are re-used between runs unless a run says 'new object'")
     if getattr(sc, "post_mut", False):
@@ -501,7 +540,9 @@ def run(tape):
                 log.ev("op", "release-held", len(shared["held"]))
                 res.say("the %d generator(s) kept by earlier consumers are closed" % len(shared["held"]))
                 res.probe("held-generator-released-before-a-later-run")
-                for g, fin in shared["held"]:
+                for g, fin, gobj in shared["held"]:
+                    if procs.switch(gobj):
+                        res.probe("held-run-of-the-other-process-released")
                     if fin is not None and op.release_how == "finish":
                         finish_held(sc, g, fin, allowed, res, log)
                         continue
@@ -517,6 +558,7 @@ def run(tape):
                 res.say("drop_cache(cache %d)" % (op.target + 1))
                 res.fault("drop_cache")
                 key = ("pl", getattr(op, "obj", 0))
+                procs.switch(getattr(op, "obj", 0))
                 if sc.reuse and shared.get(key) is not None:
                     pl = shared[key]
                 else:
@@ -534,6 +576,7 @@ def run(tape):
                 r += 1
                 fs.new_run()
                 # (an extra run in front of this operation)
+                procs.switch(shared.get("hoisted-obj", 0))
                 rerun_hoisted(sc, shared["hoisted"], r, allowed, res, log, fs)
                 if res.violations:
                     break
@@ -609,8 +652,8 @@ def run(tape):
                 if (not sc.reuse and ms and len(obs["out"]) >= 1
                         and all(e["replay_from"] is None for _, e in ms)
                         and not obs.get("eio") and not obs.get("enospc")):
-                    g, _ = shared["held"][-1]
-                    shared["held"][-1] = (g, {"exp": ms[0][1], "k": len(obs["out"]), "r": r})
+                    g, _, gobj = shared["held"][-1]
+                    shared["held"][-1] = (g, {"exp": ms[0][1], "k": len(obs["out"]), "r": r}, gobj)
             # bookkeeping for signatures and probes
             if not obs["model_complete"]:
                 if (obs.get("enospc") or obs.get("nametoolong")) and obs["exc"] == "OSError":
@@ -731,6 +774,11 @@ def execute_run(sc, op, log, r, res, fs, shared=None):
     held_new = False
     try:
         key = ("pl", getattr(op, "obj", 0))
+        if shared is not None and shared.get("procs") is not None:
+            if shared["procs"].switch(getattr(op, "obj", 0)):
+                res.probe("process-switch")
+                if shared.get("held"):
+                    res.probe("run-while-another-process-is-suspended-in-a-dump")
         if shared is not None and sc.reuse and shared.get(key) is not None and not op.rebuild:
             pl = shared[key]
             pl.configure(op, r)
@@ -746,6 +794,7 @@ def execute_run(sc, op, log, r, res, fs, shared=None):
         gen, hoisted = pl.start(op.hoist)
         if hoisted and shared is not None:
             shared["hoisted"] = pl
+            shared["hoisted-obj"] = getattr(op, "obj", 0)
         want = op.k if op.kind == "stop" else None
         while want is None or len(out) < want:
             try:
@@ -765,7 +814,7 @@ def execute_run(sc, op, log, r, res, fs, shared=None):
                 res.fault("consumer-stop-hold")
                 log.ev("stop", "hold")
                 if shared is not None:
-                    shared.setdefault("held", []).append((gen, None))
+                    shared.setdefault("held", []).append((gen, None, getattr(op, "obj", 0)))
                     held_new = True
             else:
                 res.fault("consumer-stop-drop")
